@@ -4,6 +4,7 @@
 # against it with VERIF_REPO, prints exit codes, removes the worktree.
 set -u
 PATCH=$1; shift
+[[ "$PATCH" != revert:* ]] && PATCH=$(realpath "$PATCH")
 W=$(mktemp -d /tmp/gm-wt.XXXXXX)
 git -C /repo worktree add -q --detach "$W" HEAD || exit 2
 cp /repo/gaddlemaps/data/system_CG.gro "$W/gaddlemaps/data/system_CG.gro" 2>/dev/null
